@@ -34,6 +34,62 @@ def named(b, name):
     return ls[0] if len(ls) == 1 else None
 
 
+def unchecked_sub(v):
+    """(a.checked_sub(b) as Some).0  ->  a - b"""
+    if v is not None and v[0] == 'fld' and v[2] == '0' and v[1][0] == 'as' and v[1][2] == 'Some' and v[1][1][0] == 'call' and \
+            (v[1][1][1] or '').startswith('core::num::') and (v[1][1][1] or '').endswith('::checked_sub') and len(v[1][1][2]) == 2:
+        return ('bin', 'Sub', v[1][1][2][0], v[1][1][2][1])
+    return v
+
+
+def fits(p, a, k):
+    """does path p establish a >= k (truth True) / a < k (truth False)?  `a < k` tested either way round, or a.checked_sub(k) matched"""
+    out = []
+    for e in p.conds():
+        ce, t = e[1], e[2]
+        if ce[0] == 'bin' and ce[1] in ('Lt', 'Le', 'Gt', 'Ge') and isinstance(t, bool):
+            op, x, y = ce[1], ce[2], ce[3]
+            if op in ('Gt', 'Ge'):
+                op, x, y = {'Gt': 'Lt', 'Ge': 'Le'}[op], y, x
+            if op == 'Lt' and x == a and y == k:            # a < k
+                out.append(not t)
+            elif op == 'Le' and x == k and y == a:          # k <= a
+                out.append(t)
+        elif ce[0] == 'variant' and ce[1][0] == 'call' and (ce[1][1] or '').endswith('::checked_sub') and len(ce[1][2]) == 2 and ce[1][2][0] == a and ce[1][2][1] == k:
+            out.append(t == 'Some')
+    return out
+
+
+def decides_input_empty(p, exhausted_atoms, LAST, variant):
+    """On path p the result kind is `variant`.  Documented: InputEmpty exactly when the input is exhausted and not (last and the
+    encoder has pending state), OutputFull otherwise.  The path's conditions fix some of the three facts; the kind must be right
+    for every way of completing them (so any arrangement of the tests — De Morgan, nested, reordered — is accepted)."""
+    import itertools
+    known = {}
+    for e in p.conds():
+        ce, t = e[1], e[2]
+        if not isinstance(t, bool):
+            continue
+        neg = False
+        while ce[0] == 'un' and ce[1] == 'Not':
+            ce, neg = ce[2], not neg
+        tv = t != neg
+        for form, pol in exhausted_atoms:
+            if ce == form:
+                known['x'] = tv == pol
+        if ce == LAST:
+            known['l'] = tv
+        if is_call(ce, 'Encoder::has_pending_state'):
+            known['p'] = tv
+    for x, l, pnd in itertools.product((False, True), repeat=3):
+        if any(known.get(k_) is not None and known[k_] != v_ for k_, v_ in (('x', x), ('l', l), ('p', pnd))):
+            continue
+        want = 'InputEmpty' if (x and not (l and pnd)) else 'OutputFull'
+        if want != variant:
+            return False
+    return True
+
+
 def wrapper(rep, f, c, fn, inner, errvar, repl, is_enc):
     b = f.body(fn)
     if b is None:
@@ -106,10 +162,10 @@ def wrapper(rep, f, c, fn, inner, errvar, repl, is_enc):
                 good &= v == ('len', DST)
                 seen_kinds.add('all')
             else:
-                good &= v == ('bin', 'Sub', ('len', DST), C(ncr))
-                # guarded by !(dst_len < NCR_EXTRA)
-                g = [e for e in p.conds() if e[1] == ('bin', 'Lt', ('len', DST), C(ncr)) and e[2] is False]
-                good &= len(g) == 1
+                good &= unchecked_sub(v) == ('bin', 'Sub', ('len', DST), C(ncr))
+                # guarded by dst_len >= NCR_EXTRA, however it is tested
+                g = fits(p, ('len', DST), C(ncr))
+                good &= bool(g) and all(g)
                 seen_kinds.add('ncr')
         ob('effective-len', good and seen_kinds == {'all', 'ncr'} and ncr == 10,
            'effective_dst_len is not dst.len() (can_encode_everything) / dst.len() - NCR_EXTRA (otherwise, guarded by dst.len() >= NCR_EXTRA)',
@@ -121,13 +177,13 @@ def wrapper(rep, f, c, fn, inner, errvar, repl, is_enc):
             rv = p.env.get(0)
             ok_early &= not p.calls(inner.rsplit('::', 1)[-1])
             ok_early &= rv is not None and rv[0] == 'agg' and rv[2][1:] == (C(0), C(0), ('c', 0, 'bool'))
-            g = [e for e in p.conds() if e[1] == ('bin', 'Lt', ('len', DST), C(ncr)) and e[2] is True]
-            ok_early &= len(g) == 1
-            if rv is not None and rv[0] == 'agg' and variant_name(rv[2][0]) == 'InputEmpty':
-                emp = [e for e in p.conds() if e[1][0] == 'is_empty' and e[2] is True]
-                pend_ok = any((e[1] == LAST and e[2] is False) for e in p.conds()) or \
-                    any(is_call(e[1], 'Encoder::has_pending_state') and e[2] is False for e in p.conds())
-                ok_early &= len(emp) == 1 and pend_ok
+            g = fits(p, ('len', DST), C(ncr))
+            ok_early &= bool(g) and not any(g)
+            if rv is not None and rv[0] == 'agg' and variant_name(rv[2][0]) in ('InputEmpty', 'OutputFull'):
+                ok_early &= decides_input_empty(p, [(('is_empty', SRC), True), (('bin', 'Eq', ('len', SRC), C(0)), True), (('bin', 'Ne', ('len', SRC), C(0)), False)],
+                                                LAST, variant_name(rv[2][0]))
+            else:
+                ok_early = False
         ob('early-exit', ok_early and len(early) >= 2,
            'the dst.len() < NCR_EXTRA exits do not have the documented shape (no conversion, (_,0,0,false), InputEmpty only for empty input without pending state)')
 
@@ -206,11 +262,23 @@ def wrapper(rep, f, c, fn, inner, errvar, repl, is_enc):
                 TW2 = p.env.get(TWl)
                 ok &= add_terms(TW2) == add_terms(('bin', 'Add', TW1, ncr_res)) and p.env.get(TRl) == TR1
                 # continuation decision
-                ge = [e for e in p.conds() if e[1][0] == 'bin' and e[1][1] in ('Ge', 'Lt') and add_terms(e[1][2]) == add_terms(TW2) and e[1][3] == eff]
+                # total_written >= effective_dst_len, whichever way round it is written
+                ge = []
+                for e in p.conds():
+                    if e[1][0] == 'bin' and e[1][1] in ('Ge', 'Lt', 'Le', 'Gt') and isinstance(e[2], bool):
+                        op_, x_, y_ = e[1][1], e[1][2], e[1][3]
+                        if op_ in ('Le', 'Gt'):
+                            op_, x_, y_ = {'Le': 'Ge', 'Gt': 'Lt'}[op_], y_, x_
+                        try:
+                            same = add_terms(x_) == add_terms(TW2) and y_ == eff
+                        except Exception:
+                            same = False
+                        if same:
+                            ge.append((e[2] is True) if op_ == 'Ge' else (e[2] is False))
                 if len(ge) != 1:
                     ok = False
                 else:
-                    full = (ge[0][2] is True) if ge[0][1][1] == 'Ge' else (ge[0][2] is False)
+                    full = ge[0]
                     if not full:
                         ok &= p.end[0] == 'back'
                     else:
@@ -219,13 +287,9 @@ def wrapper(rep, f, c, fn, inner, errvar, repl, is_enc):
                             and rv[2][3] == ('c', 1, 'bool')
                         if ok:
                             vn = variant_name(rv[2][0])
-                            eqc = [e for e in p.conds() if e[1][0] == 'bin' and e[1][1] == 'Eq' and e[1][2] == TR1 and e[1][3] == ('len', SRC)]
-                            lastc = [e for e in p.conds() if e[1] == LAST]
-                            pend = [e for e in p.conds() if is_call(e[1], 'Encoder::has_pending_state')]
-                            if vn == 'InputEmpty':
-                                ok &= len(eqc) == 1 and eqc[0][2] is True and ((lastc and lastc[0][2] is False) or (pend and pend[0][2] is False))
-                            elif vn == 'OutputFull':
-                                ok &= (len(eqc) == 1 and eqc[0][2] is False) or (lastc and lastc[0][2] is True and pend and pend[0][2] is True)
+                            if vn in ('InputEmpty', 'OutputFull'):
+                                ok &= decides_input_empty(p, [(('bin', 'Eq', TR1, ('len', SRC)), True), (('bin', 'Eq', ('len', SRC), TR1), True),
+                                                              (('bin', 'Ne', TR1, ('len', SRC)), False), (('bin', 'Ne', ('len', SRC), TR1), False)], LAST, vn)
                             else:
                                 ok = False
             ob('ncr-arm', ok, 'the Unmappable arm does not write one NCR for the reported character at dst[total_written..], advance by its length, '
